@@ -190,22 +190,35 @@ Proof. exact view_xattr. Qed.
 
 (* an image whose entries have the shape tar2sqfs gives them (img_shape:
    canonical names, directories with sqfs2tar's trailing '/', 32-bit time
-   stamps, links with mode 0777, nothing tar cannot express) converts to an
-   image from which sqfs2tar writes the same archive, byte for byte *)
+   stamps, links with mode 0777, nothing tar cannot express; settled: the
+   xattrs of every inode in the order the xattr writer stores them for this
+   sequence of entries — by index of the key in the image-wide key table)
+   converts to an image from which sqfs2tar writes the same archive, byte for
+   byte *)
 Theorem conv_fixpoint : forall es,
-  Forall entry_ok es -> Forall img_shape es ->
+  Forall entry_ok es -> Forall img_shape es -> settled [] es ->
   exists es', convert es = RA_Ok es' /\ write_archive es' = write_archive es.
 Proof. exact conv_fixpoint_l. Qed.
 Print Assumptions conv_fixpoint.
 
 (* ... and ANY image (names shorter than TAR_MAX_PATH_LEN) has that shape
-   after one round: the second conversion reproduces the first *)
+   after one round: the second conversion reproduces the first.  (The first
+   round may rearrange the xattrs of an inode — xattr_order_may_settle below —
+   which is why the statement is about the second round.) *)
 Theorem conv_second_round : forall es,
   Forall entry_ok es -> Forall short_name es ->
   exists es1 es2, convert es = RA_Ok es1 /\ convert es1 = RA_Ok es2 /\
                   write_archive es2 = write_archive es1.
 Proof. exact conv_second_round_l. Qed.
 Print Assumptions conv_second_round.
+
+(* the first round is not the identity on archives even for an image in
+   img_shape: two files sharing xattr keys, the second listing them in another
+   order than the key table of the NEW image will have *)
+Theorem xattr_order_may_settle :
+  convert settle_a = RA_Ok settle_b /\ convert settle_b = RA_Ok settle_b /\
+  write_archive settle_b <> write_archive settle_a.
+Proof. exact xattr_order_settles. Qed.
 
 (* Without the reversal in sqfs2tar (the code before fix F23) this is false:
    a file with the two xattrs user.a, user.b converts to the image with
@@ -347,11 +360,12 @@ Definition ex_image : list tentry :=
    mkte (mkentry [100;47;102] (S_IFREG + 420) 1000 1000 3 1700000000%Z 0 false) None [x_user_a; x_user_b] [104;105;10];
    mkte (mkentry [100;47;108] (S_IFLNK + 511) 0 0 1 7%Z 0 false) (Some [102]) [x_user_b] [];
    mkte (mkentry [100;47;104] (S_IFLNK + 511) 1000 1000 0 1700000000%Z 0 true) (Some [100;47;102]) [] []].
-Example ex_image_ok : forallb entry_okb ex_image && forallb img_shapeb ex_image = true.
+Example ex_image_ok : forallb entry_okb ex_image && forallb img_shapeb ex_image && settledb [] ex_image = true.
 Proof. vm_compute. reflexivity. Qed.
-Example ex_image_hyps : Forall entry_ok ex_image /\ Forall img_shape ex_image.
+Example ex_image_hyps : Forall entry_ok ex_image /\ Forall img_shape ex_image /\ settled [] ex_image.
 Proof.
-  split; apply Forall_forall; intros t Ht;
+  split; [|split]; [| |apply settledb_sound; vm_compute; reflexivity];
+    apply Forall_forall; intros t Ht;
     [apply entry_okb_sound|apply img_shapeb_sound];
     cbn [ex_image In] in Ht; repeat (destruct Ht as [<-|Ht]; [vm_compute; reflexivity|]); contradiction.
 Qed.
